@@ -746,6 +746,9 @@ func runCloudEvents(rc *RunCtx) {
 		for i := 0; i < n; i++ {
 			tp.Mark()
 			typ := []string{"signed-type", "plain-type", "other-signed", "signed-type2"}[tp.Choose(4, "type")]
+			if tp.Choose(16, "empty-type") == 0 {
+				typ = "" // a cloudevent without a type cannot be conformant: the event has to be rejected
+			}
 			created := genTime(tp)
 			base := cePlain{N: i, S: specialStrings[tp.Choose(len(specialStrings), "s")]}
 			var payload interface{}
@@ -801,6 +804,12 @@ func runCloudEvents(rc *RunCtx) {
 			if kind == 4 {
 				if err == nil || out != nil {
 					rc.Failf("C18.empty-id-accepted", "", "a payload whose ID() is empty was accepted")
+				}
+				continue
+			}
+			if typ == "" {
+				if err == nil || out != nil || stored {
+					rc.Failf("C18.type", "empty-accepted", "an event with an empty type was formatted (a cloudevent must carry a non-empty type): stored=%v out=%v err=%v", stored, out != nil, err)
 				}
 				continue
 			}
